@@ -32,13 +32,13 @@ ASSUMPTIONS = [
     "attrs of percentile results are not asserted (built on stack, see DESIGN 6.8)",
 ]
 MANDATORY = ["axis:name", "axis:pos", "axis:negpos", "axis:None", "axis:tuple", "axis:tuple-all", "skipna:True", "nan:whole-fibre", "nan:all",
-             "nan:sparse", "vk:i", "vk:b", "result:single-element", "percentile:list", "percentile:scalar", "labels:unsorted"]
+             "nan:sparse", "vk:i", "vk:b", "result:single-element", "percentile:list", "percentile:scalar", "labels:unsorted", "values:inf", "dtype:float32"]
 
 REDS = ["sum", "prod", "mean", "var", "std", "min", "max", "ptp", "all", "any", "median"]
 
 
 def budget(tier):
-    return {"quick": dict(examples=400, shards=1), "thorough": dict(examples=5000, shards=16)}[tier]
+    return {"quick": dict(examples=1200, shards=1), "thorough": dict(examples=5000, shards=16)}[tier]
 
 
 # ----------------------------------------------------------------------------------------------
@@ -286,6 +286,16 @@ def gen_case(draw, max_dims=4):
         elif mode == "all":
             vals = ["NaN"] * ncell
         spec["nanmode"] = mode
+        if draw(st.integers(0, 4)) == 0:
+            # infinite values are values, not missing values
+            for j in draw(st.lists(st.integers(0, ncell - 1), min_size=1, max_size=2, unique=True)):
+                if vals[j] != "NaN":
+                    vals[j] = draw(st.sampled_from(["inf", "-inf"]))
+            spec["inf"] = True
+        if draw(st.integers(0, 4)) == 0:
+            spec["dtype"] = "float32"           # single precision: the values (k/4) and their sums are exact in it
+            if spec.get("hist", {}).get("mode") not in ("none", "warm"):
+                spec["hist"] = {"mode": "warm"}
     elif spec["vk"] == "i":
         vals = draw(st.lists(st.integers(-5, 9), min_size=ncell, max_size=ncell))
     else:
@@ -321,10 +331,16 @@ def run_gen(case):
     for name, i, skipna in case["picks"]:
         if name == "ptp" and spec["vk"] == "b":
             continue
+        if spec.get("dtype") == "float32" and name not in ("sum", "min", "max", "ptp", "any", "all", "median"):
+            continue        # (mean / var / std / prod round differently in single precision: only the exact reductions are compared)
         form, reduced = forms[i % len(forms)]
         nt = check_reduction(a, spec, name, form, reduced, skipna, cl, attrs=attrs) or nt
     if spec.get("nanmode") == "fibre":
         cl.add("nan:whole-fibre")
+    if spec.get("inf"):
+        cl.add("values:inf")
+    if spec.get("dtype"):
+        cl.add("dtype:float32")
     if any(gen.order_of(l) in ("shuf", "dec") for l in spec["labels"]):
         cl.add("labels:unsorted")
     return {"classes": sorted(cl), "nontrivial": bool(nt)}
